@@ -9,6 +9,7 @@ package main
 // to one list of placements with canonical offsets (constant + sorted symbolic lengths).
 
 import (
+	"regexp"
 	"fmt"
 	"go/constant"
 	"go/token"
@@ -156,7 +157,7 @@ func (fa *FuncAn) lenOff(v ssa.Value) Off {
 	case *ssa.ChangeType:
 		return fa.lenOff(x.X)
 	case *ssa.Convert:
-		if _, isSl := x.X.Type().Underlying().(*types.Slice); isSl {
+		if isByteSeq(x.X.Type()) && isByteSeq(x.Type()) {
 			return fa.lenOff(x.X)
 		}
 	}
@@ -232,8 +233,19 @@ func (fa *FuncAn) placeContent(out *[]Place, at ssa.Instruction, off Off, src ss
 	}
 	if c, ok := src.(*ssa.Const); ok && c.Value != nil && c.Value.Kind() == constant.String {
 		s := constant.StringVal(c.Value)
+		if len(s) <= 8 {
+			// a short constant: byte by byte, as a literal []byte{…} would be
+			for i := 0; i < len(s); i++ {
+				*out = append(*out, mkPlace(off.addK(int64(i)), off.addK(int64(i+1)), strconv.Itoa(int(s[i])), at))
+			}
+			return off.addK(int64(len(s)))
+		}
 		*out = append(*out, mkPlace(off, off.addK(int64(len(s))), strconv.Quote(s), at))
 		return off.addK(int64(len(s)))
+	}
+	// string <-> []byte conversions carry the same bytes
+	if cv, ok := src.(*ssa.Convert); ok && isByteSeq(cv.X.Type()) && isByteSeq(cv.Type()) {
+		return fa.placeContent(out, at, off, cv.X)
 	}
 	end := off.add(fa.lenOff(src))
 	*out = append(*out, mkPlace(off, end, fa.R.R(src), at))
@@ -306,8 +318,41 @@ func (fa *FuncAn) imperativeWrites(base ssa.Value) []Place {
 // the buffer when it is known.
 func (fa *FuncAn) BufferPlaces(v ssa.Value) ([]Place, string) {
 	ps, l := fa.bufPlaces(v, 0, map[ssa.Value]bool{})
-	sort.SliceStable(ps, func(i, j int) bool { return offLess(ps[i].Off, ps[j].Off) })
+	sort.SliceStable(ps, func(i, j int) bool { return offBefore(ps[i].o, ps[j].o) })
+	ps = mergeShiftedBytes(ps)
 	return ps, l.String()
+}
+
+// offBefore: a precedes b — the difference b - a is a positive constant, or a sum of lengths (which
+// are not negative) plus a non-negative constant; otherwise constants first, then by text.
+func offBefore(a, b Off) bool {
+	sub := func(x, y []string) ([]string, bool) { // y minus x as multisets, if x ⊆ y
+		rest := append([]string{}, y...)
+		for _, s := range x {
+			found := false
+			for i, r := range rest {
+				if r == s {
+					rest = append(rest[:i], rest[i+1:]...)
+					found = true
+					break
+				}
+			}
+			if !found {
+				return nil, false
+			}
+		}
+		return rest, true
+	}
+	if rest, ok := sub(a.Syms, b.Syms); ok {
+		if len(rest) == 0 {
+			return a.K < b.K
+		}
+		return b.K >= a.K
+	}
+	if _, ok := sub(b.Syms, a.Syms); ok {
+		return false
+	}
+	return offLess(a.String(), b.String())
 }
 
 func offLess(a, b string) bool {
@@ -336,9 +381,38 @@ func (fa *FuncAn) bufPlaces(v ssa.Value, depth int, seen map[ssa.Value]bool) ([]
 	switch x := v.(type) {
 	case *ssa.ChangeType:
 		return fa.bufPlaces(x.X, depth+1, seen)
+	case *ssa.Convert:
+		if isByteSeq(x.X.Type()) && isByteSeq(x.Type()) {
+			return fa.bufPlaces(x.X, depth+1, seen)
+		}
+	case *ssa.BinOp:
+		// string concatenation
+		if bt, ok := x.Type().Underlying().(*types.Basic); ok && bt.Info()&types.IsString != 0 && x.Op == token.ADD {
+			ps, l := fa.bufPlaces(x.X, depth+1, seen)
+			out := append([]Place{}, ps...)
+			switch x.Y.(type) {
+			case *ssa.BinOp:
+				sub, sl := fa.bufPlaces(x.Y, depth+1, seen)
+				for _, p := range sub {
+					if p.End == "" {
+						out = append(out, mkOpenPlace(l.add(p.o), p.What, p.At))
+					} else {
+						out = append(out, mkPlace(l.add(p.o), l.add(p.e), p.What, p.At))
+					}
+				}
+				return out, l.add(sl)
+			}
+			end := fa.placeContent(&out, x, l, x.Y)
+			return out, end
+		}
 	case *ssa.Const:
 		if x.Value == nil {
 			return nil, Off{}
+		}
+		if x.Value.Kind() == constant.String {
+			var out []Place
+			end := fa.placeContent(&out, nil, Off{}, x)
+			return out, end
 		}
 	case *ssa.MakeSlice:
 		return fa.imperativeWrites(x), fa.offOf(x.Len)
@@ -560,4 +634,70 @@ func (fa *FuncAn) bytesBufferPlaces(call *ssa.Call) ([]Place, Off, bool) {
 		}
 	}
 	return out, off, true
+}
+
+var shiftedRe = regexp.MustCompile(`^\((.+) >> (\d+)\)$`)
+
+// mergeShiftedBytes: n consecutive single bytes holding x>>8(n-1), …, x>>8, x are the big-endian
+// encoding of x (the hand-written form of binary.BigEndian.PutUintNN); ascending shifts are the
+// little-endian one.
+func mergeShiftedBytes(ps []Place) []Place {
+	var out []Place
+	for i := 0; i < len(ps); {
+		merged := false
+		for _, n := range []int{8, 4, 2} {
+			if i+n > len(ps) {
+				continue
+			}
+			ok := true
+			var shifts []int
+			x := ""
+			for k := 0; k < n && ok; k++ {
+				p := ps[i+k]
+				if p.End == "" || p.e.String() != p.o.addK(1).String() || (k > 0 && p.o.String() != ps[i+k-1].e.String()) {
+					ok = false
+					break
+				}
+				what, sh := p.What, 0
+				if m := shiftedRe.FindStringSubmatch(what); m != nil {
+					what = m[1]
+					sh, _ = strconv.Atoi(m[2])
+				}
+				if k == 0 {
+					x = what
+				} else if what != x {
+					ok = false
+				}
+				shifts = append(shifts, sh)
+			}
+			if !ok || isConstTerm(x) {
+				continue
+			}
+			be, le := true, true
+			for k, sh := range shifts {
+				if sh != 8*(n-1-k) {
+					be = false
+				}
+				if sh != 8*k {
+					le = false
+				}
+			}
+			if !be && !le {
+				continue
+			}
+			order := "BE"
+			if le && !be {
+				order = "LE"
+			}
+			out = append(out, mkPlace(ps[i].o, ps[i+n-1].e, fmt.Sprintf("%s%d(%s)", order, 8*n, x), ps[i].At))
+			i += n
+			merged = true
+			break
+		}
+		if !merged {
+			out = append(out, ps[i])
+			i++
+		}
+	}
+	return out
 }
